@@ -1,7 +1,7 @@
 (* C20 — proofs about the model Conc/Flush.v: invariants of the transition system over ALL label sequences
    (all schedules, any number of goroutines / entries / writers, any queue capacity). *)
 From Coq Require Import List NArith Bool Lia ZifyBool ZifyN.
-From TarsV Require Import Conc.Flush.
+From TarsV Require Import Gen.Consts Conc.Flush.
 Import ListNotations.
 Open Scope N_scope.
 
@@ -834,3 +834,9 @@ Example rejects_write_after_ack : accepts [ECall e00; EFlushCall; EFlushRet true
 Proof. vm_compute. reflexivity. Qed.
 Example accepts_timer_return_with_backlog : accepts [ECall e00; ERet e00; EFlushCall; EFlushRet false; EWrite e00] = true.
 Proof. vm_compute. reflexivity. Qed.
+
+(* ---------- the constants of the tree the model and the harness rely on (regenerated on every run) ---------- *)
+(* the queue is buffered (an unbuffered channel would hand entries over by rendez-vous, which [Enq] does not model),
+   and FlushLogger waits at least the second that the harness's "small backlog" scenarios assume *)
+Lemma tree_constants_in_range : 0 < c_rogger_queue_cap /\ 1000 <= c_rogger_wait_flush_timeout_ms.
+Proof. vm_compute. split; [reflexivity | discriminate]. Qed.
